@@ -32,6 +32,7 @@ POOLS = {
     "plain": ["V_m", "Ca_i", "x1", "alpha"],
 }
 ROLES = ["state", "parameter", "intermediate"]
+SUBMODEL_IDENTS = ["dt", "shape", "values", "states", "parameters", "numpy", "len", "missing_variables", "_values_0", "V_m"]
 
 
 def plan(tier, seed):
@@ -46,26 +47,47 @@ def plan(tier, seed):
                 for b in be:
                     specs.append({"klass": pool, "i": k, "ident": n, "role": role, "backend": b})
                     k += 1
+    # generator configurations other than the default: fixed output shape, unused variables removed, many outputs
+    for n in ["shape", "len", "states", "values", "dt", "numpy", "V_m"]:
+        for role in ROLES:
+            specs.append({"klass": "shape_single", "i": k, "ident": n, "role": role, "backend": "numpy", "opts": {"shape": "single"}})
+            k += 1
+    for n in POOLS["template_locals"] + POOLS["scheme_helpers"] + ["_values_0", "_values_1", "len", "V_m"]:
+        for b in ("numpy", "jax", "c"):
+            for ru in (True, False):
+                specs.append({"klass": "unused_state", "i": k, "ident": n, "role": "state", "variant": "unused", "backend": b, "opts": {"remove_unused": ru}})
+                k += 1
+    for n in ["_values_10", "_values_11", "_values_13", "_values_100", "_values_9", "values_10"]:
+        for role in ROLES:
+            for b in ("jax", "numpy"):
+                specs.append({"klass": "wide_model", "i": k, "ident": n, "role": role, "variant": "wide", "backend": b})
+                k += 1
+    for n in SUBMODEL_IDENTS:
+        for b in ("numpy", "jax", "c"):
+            specs.append({"klass": "missing_variable_of_sub_model", "i": k, "ident": n, "role": "missing_variable", "backend": b})
+            k += 1
     for s in specs:
         s["prop"] = ID
         s.setdefault("soft_timeout", 150)
     return specs
 
 
-def model_text(n, role):
-    P = n if role == "parameter" else "pp"
-    Sx = n if role == "state" else "ss"
-    I = n if role == "intermediate" else "ii"
-    return (f"parameters(p0=0.5, {P}=1.5)\nstates(s0=0.75, {Sx}=1.25)\n\n{I} = s0 * p0 + t + {Sx} * 0.25\nds0_dt = -s0 * {P} + {I} + time * 0.125\nd{Sx}_dt = {Sx} * -0.5 + s0 - {P} * 0.0625\n")
+def split_text(n):
+    """Two components; the identifier is a state of component B that component A reads: in the sub-model `ode - B`
+    it is a missing variable."""
+    return (f"parameters(\"A\", p0=0.5)\nstates(\"A\", s0=0.75)\nstates(\"B\", {n}=1.25)\n\nexpressions(\"A\")\nii = s0 * p0 + t + {n} * 0.25\nds0_dt = -s0 * 1.5 + ii + time * 0.125\n\n"
+            f"expressions(\"B\")\nd{n}_dt = {n} * -0.5 + s0\n")
 
 
-def run_case(spec, ctx):
-    out = {"violations": [], "counters": {}, "evaluations": 0, "nontrivial": False, "status": "held"}
+def run_split_case(spec, out):
+    """Sub-model `ode - B` generated as documented; its functions, fed the full model's value for the missing variable,
+    must equal the twin's (identifier renamed) or generation must fail."""
+    from ..exec.pyexec import PyModule
+
+    n, be = spec["ident"], spec["backend"]
     cn = out["counters"]
-    n, role, be = spec["ident"], spec["role"], spec["backend"]
-    text = spec.get("text") or model_text(n, role)
-    twin = model_text(FRESH, role)
-    out["hash"] = f"{n}:{role}:{be}"
+    text, twin = split_text(n), split_text(FRESH)
+    out["hash"] = f"{n}:missing:{be}"
     tref = RefModel.from_text(twin)
     lo = C.load_text(text)
     if not lo.ok:
@@ -74,8 +96,106 @@ def run_case(spec, ctx):
         out["outcome"] = "rejected_at_load: " + type(lo.exc).__name__
         return finish(out, text, spec)
     ode = lo.value
-    stiff = ["s0", n if role == "state" else "ss"]
-    oc = B.generate(be, ode, schemes=SCH, stiff_states=stiff)
+    sub = C.call(lambda: ode - ode.get_component("B"))
+    if not sub.ok:
+        cn["outcome"] = {"rejected_at_split": 1}
+        out["nontrivial"] = True
+        return finish(out, text, spec)
+    oc = B.generate(be, sub.value, schemes=["explicit_euler", "generalized_rush_larsen"])
+    if not oc.ok:
+        cn["outcome"] = {"rejected_at_generation": 1}
+        out["nontrivial"] = True
+        out["outcome"] = "rejected_at_generation: " + type(oc.exc).__name__
+        return finish(out, text, spec)
+    if be == "c":
+        from ..exec.cexec import CModule
+
+        cm = CModule(oc.value, [], {"states": 1, "parameters": 1, "monitored": 2})
+        try:
+            diag = cm.compile_check()
+        finally:
+            cm.close()
+        bad = [d["errors"][:1] for d in diag.values() if d["rc"] != 0]
+        cn["outcome"] = {"c_compile_error_recorded_under_C02": 1} if bad else {"c_compiles_values_not_executed": 1}
+        out["nontrivial"] = True
+        out["outcome"] = "c: " + ("compile error " + str(bad[0])[:100] if bad else "compiles")
+        if not bad and n in ("dt",):
+            # a C sub-model that compiles although the missing variable re-declares the step-size argument cannot exist
+            pass
+        return finish(out, text, spec)
+    try:
+        m = PyModule(oc.value, be)
+    except Exception as exc:
+        out["violations"].append({"kind": "generated_module_fails_at_import", "subkind": "missing_variable", "detail": {"ident": n, "role": "missing_variable", "backend": be, "exc": f"{type(exc).__name__}: {exc}"[:150]}})
+        return finish(out, text, spec)
+    compared = 0
+    for tp in (tref.default_point(t=0.375), dict(tref.default_point(t=2.0), s0=-0.5, **{FRESH: 2.25})):
+        res, _ = tref.evaluate(tp)
+        mp_ = {(n if k_ == FRESH else k_): v for k_, v in tp.items()}
+        for fn in ("rhs", "explicit_euler", "generalized_rush_larsen"):
+            dt = None if fn == "rhs" else 0.05
+            rec = m.call(fn, mp_, dt=dt, missing=mp_)
+            out["evaluations"] += 1
+            if rec.exc is not None:
+                out["violations"].append({"kind": "raises_at_call_time", "subkind": f"missing_variable|{fn}", "detail": {"ident": n, "role": "missing_variable", "fn": fn, "backend": be, "exc": f"{type(rec.exc).__name__}: {rec.exc}"[:200]}})
+                continue
+            try:
+                val = res["ds0_dt"] if fn == "rhs" else S.expected_update(tref, tp, res, "s0", dt, "euler" if fn == "explicit_euler" else "grl", 1e-8)[0]
+            except (E.Undefined, E.Undecidable):
+                continue
+            got = float(rec.out[m.names("state")["s0"]])
+            jv = C.judge(got, val)
+            if jv == "skip":
+                continue
+            compared += 1
+            if jv != "ok":
+                out["violations"].append({"kind": "value_differs_from_renamed_twin", "subkind": f"missing_variable|{fn}", "detail": {"ident": n, "role": "missing_variable", "fn": fn, "name": "s0", "got": got, "expected": float(val.v), "backend": be}})
+    cn["compared"] = compared
+    cn["outcome"] = {"treated_as_model_quantity": 1} if not out["violations"] else {"captured": 1}
+    out["outcome"] = "equal_to_twin" if not out["violations"] else "violated"
+    out["nontrivial"] = compared >= 3
+    return finish(out, text, spec)
+
+
+def model_text(n, role, variant=None):
+    P = n if role == "parameter" else "pp"
+    Sx = n if role == "state" else "ss"
+    I = n if role == "intermediate" else "ii"
+    if variant == "unused":
+        # nothing depends on the state, not even its own derivative
+        return (f"parameters(p0=0.5, pp=1.5)\nstates(s0=0.75, {Sx}=1.25)\n\nii = s0 * p0 + t\nds0_dt = -s0 * pp + ii + time * 0.125\nd{Sx}_dt = s0 * 0.5 - pp * 0.0625\n")
+    if variant == "wide":
+        # enough states / monitored values for two-digit collector indices
+        ws = [f"w{j}" for j in range(12)]
+        return (f"parameters(p0=0.5, {P}=1.5)\nstates(s0=0.75, {Sx}=1.25, " + ", ".join(f"{w}={0.25 + 0.125 * j}" for j, w in enumerate(ws)) + f")\n\n{I} = s0 * p0 + t + {Sx} * 0.25\n"
+                f"ds0_dt = -s0 * {P} + {I} + time * 0.125\nd{Sx}_dt = {Sx} * -0.5 + s0 - {P} * 0.0625\n" + "".join(f"d{w}_dt = -{w} * 0.5 + {Sx} * {0.0625 * (j + 1)} + {I} * {P}\n" for j, w in enumerate(ws)))
+    return (f"parameters(p0=0.5, {P}=1.5)\nstates(s0=0.75, {Sx}=1.25)\n\n{I} = s0 * p0 + t + {Sx} * 0.25\nds0_dt = -s0 * {P} + {I} + time * 0.125\nd{Sx}_dt = {Sx} * -0.5 + s0 - {P} * 0.0625\n")
+
+
+def run_case(spec, ctx):
+    out = {"violations": [], "counters": {}, "evaluations": 0, "nontrivial": False, "status": "held"}
+    cn = out["counters"]
+    if spec.get("role") == "missing_variable":
+        return run_split_case(spec, out)
+    n, role, be = spec["ident"], spec["role"], spec["backend"]
+    variant, opts = spec.get("variant"), dict(spec.get("opts") or {})
+    text = spec.get("text") or model_text(n, role, variant)
+    twin = model_text(FRESH, role, variant)
+    out["hash"] = f"{n}:{role}:{be}" + (f":{variant}" if variant else "") + "".join(f":{k_}={v}" for k_, v in sorted(opts.items()))
+    if "shape" in opts:
+        from gotranx.codegen.base import Shape
+
+        opts["shape"] = Shape(opts["shape"])
+    tref = RefModel.from_text(twin)
+    lo = C.load_text(text)
+    if not lo.ok:
+        cn["outcome"] = {"rejected_at_load": 1}
+        out["nontrivial"] = True
+        out["outcome"] = "rejected_at_load: " + type(lo.exc).__name__
+        return finish(out, text, spec)
+    ode = lo.value
+    stiff = [st.name for st in ode.states]
+    oc = B.generate(be, ode, schemes=SCH, stiff_states=stiff, **opts)
     if not oc.ok:
         cn["outcome"] = {"rejected_at_generation": 1}
         out["nontrivial"] = True
@@ -191,7 +311,7 @@ def summarise(records, tier, seed):
         "evaluations": ag["evaluations"] + len(records),
         "distinct_nontrivial": len(ag["hashes"]),
         "rule": "identifier pools (template locals, module-level names, scheme helper names, Python keywords/builtins, C keywords/libm names, sympy/jax names, underscore names, grammar words, plain controls) "
-        "x role {state, parameter, intermediate} x backend; the template model uses t and time and a scheme-relevant rate; each case is compared by name with the same model with the identifier renamed to a "
+        "x role {state, parameter, intermediate} x backend, plus generator configurations (fixed output shape, remove_unused with a state nothing depends on, a wide model with > 10 outputs, sub-models with missing variables); the template model uses t and time and a scheme-relevant rate; each case is compared by name with the same model with the identifier renamed to a "
         "fresh name (reference of the twin); acceptable outcomes: equal values or an exception from load / generation (C: a compile error); evaluation = one generated call (or one rejected load/generation); "
         "non-trivial = rejected loudly or >= 4 values compared; distinct by (identifier, role, backend)",
         "exhaustive": True,
